@@ -129,7 +129,8 @@ CENTERING = {
     't2': [(Fraction(1, 3), Fraction(2, 3), Fraction(1, 3)), (Fraction(2, 3), Fraction(1, 3), Fraction(2, 3))],   # reverse
 }
 
-SHAPES = ['single', 'N', 'MxN', 'NxN', 'rank4', 'float']
+SHAPES = ['single', 'N', 'MxN', 'NxN', 'rank4', 'float', 'int8', 'int16', 'uint8']
+NARROW = {'int8': np.int8, 'int16': np.int16, 'uint8': np.uint8}
 
 
 def shaped(X, kind):
@@ -140,6 +141,22 @@ def shaped(X, kind):
         return [(X, slice(0, n))]
     if kind == 'float':
         return [(X.astype(float), slice(0, n))]
+    if kind in NARROW:
+        # the same integers held in a narrow / unsigned integer dtype (runs of rows the dtype cannot hold stay int64)
+        if not np.issubdtype(X.dtype, np.integer):
+            if not np.all(X == np.round(X)):
+                return [(X, slice(0, n))]          # intermediate non-integer coordinates: nothing to narrow
+            X = np.round(X).astype(np.int64)
+        info = np.iinfo(NARROW[kind])
+        fits = np.all((X >= info.min) & (X <= info.max), axis=1)
+        out, i = [], 0
+        while i < n:
+            j = i
+            while j < n and fits[j] == fits[i]:
+                j += 1
+            out.append((X[i:j].astype(NARROW[kind]) if fits[i] else X[i:j], slice(i, j)))
+            i = j
+        return out
     if kind == 'MxN':
         m = next((m for m in range(2, n) if n % m == 0 and n // m != m), None)
         if m is None:
@@ -669,7 +686,7 @@ def gen():
         for sh in SHAPES:
             yield 'centering', {'setting': si, 'shape': sh}
     for sh in SHAPES:
-        if sh != 'float':
+        if sh != 'float' and sh not in NARROW:
             yield 'reduce', {'shape': sh}
     for m in range(1, R + 1):
         yield 'all_indices', {'maxindex': m}
